@@ -123,7 +123,7 @@ CLAIMED['C03'] = dict(
     note=NOTE + ' Member decompositions, noise and the mask extraction are oracles here (C07/C08 treat them); ensembles are compared exactly with zero noise amplitude only.')
 
 CLAIMED['C09'] = dict(
-    technique='Coq proof over a Gallina model (canonical rationals, abstract period tau, oracle contracts for Hilbert/angle/abs/envelopes) of gradient / cumsum / wrap / unwrap / medfilt / freq_from_phase / phase_from_freq / frequency_transform + differential correspondence (exact on dyadic data, 1e-9 where the double 2pi enters) + pipeline trace; accuracy clause by oracle sweep only (PARTIAL)',
+    technique='Coq proof over a Gallina model (canonical rationals, abstract period tau, oracle contracts for Hilbert/angle/abs/envelopes) of gradient / cumsum / wrap / unwrap / medfilt / freq_from_phase / phase_from_freq / frequency_transform + differential correspondence (exact on dyadic data, 1e-9 where the double 2pi enters) + pipeline trace; accuracy clause by oracle sweep only (PARTIAL) + TRANSLATION TIE (Prop_Tie_Freq.v): the bodies of frequency_transform, freq_from_phase, phase_from_freq, phase_from_complex_signal, wrap_phase, amplitude_normalise are regenerated from the source on every run by a fail-closed ast translator and machine-checked refinement theorems show the hand model computes exactly what the translated program computes for every oracle behaviour',
     text='PARTIAL. Theorems (Prop_C09.v) prove for all inputs over exact rationals: outputs have the input\'s shape; the repaired wrap keeps phase in '
          '[0, tau) for every rounding function (and the pre-repair one is refuted with a witness); IF = (sr/tau) * gradient(U) with IP = wrap(U) for the '
          'same unwrapped U; wrap(unwrap) identity and bounded unwrap steps; median-of-5 smoothing leaves an increasing phase unchanged inside; the '
@@ -166,7 +166,7 @@ CLAIMED['C19'] = dict(
     note=NOTE + ' Which validator an entry point calls is hand-modelled and validated by the accept/reject correspondence on the entry points themselves.')
 
 CLAIMED['C06'] = dict(
-    technique='Coq proof over a Gallina model of every option-threading call site (parametric in the option values; defaults and fall-back literals from the table REGENERATED from emd/sift.py on every run) + exhaustive traced correspondence of the grid variant x option x route x nprocesses (stage calls recorded in parent and forked workers)',
+    technique='Coq proof over a Gallina model of every option-threading call site (parametric in the option values; defaults and fall-back literals from the table REGENERATED from emd/sift.py on every run) + exhaustive traced correspondence of the grid variant x option x route x nprocesses (stage calls recorded in parent and forked workers) + TRANSLATION TIE (Prop_Tie_Options.v): the twelve option-threading functions are regenerated from the source on every run and a STATIC extraction of every call site (positional / keyword / ** splat / starmap tuple / functools.partial binding against the parameter list of the callee, fall-back literals) is proved equal to the call-site functions of the Options.v model',
     text='Theorems (Prop_C06.v) prove for every option value type, every well-formed option set, every variant (classic, masked, ensemble, '
          'complete-ensemble, both second-layer sifts), every delivery route (keyword dicts, SiftConfig unpacking, get_func partial) and every run shape '
          '(numbers of iterations / layers / members / phases) that each recorded stage call of get_next_imf, interp_envelope and get_padded_extrema '
